@@ -404,7 +404,7 @@ def method_resolution(method: str) -> bool:
 
 _XOR_CT = base64.b64encode(XorProvider(KEY).encrypt(b"pw")).decode()
 METHODS = (None, "", "aes", "xor", "best", "AES", "rot13", 5, True)
-CTS = (None, "", _XOR_CT, "QQ", "!!", "AAAAAAAAAAAAAAAAAAAAAAAAAAAAAAAAAAAAAAAAAAAAAAAAAAA=", 7, b"QUJD", ["x"])
+CTS = (None, "", _XOR_CT, "QQ", _XOR_CT.rstrip("=")[:-1] if _XOR_CT.endswith("=") else _XOR_CT[:-1], "!!", "AAAAAAAAAAAAAAAAAAAAAAAAAAAAAAAAAAAAAAAAAAAAAAAAAAA=", 7, b"QUJD", ["x"])
 
 
 @obligation(prop="C08", sites=("value", "reject", "passthrough"),
@@ -415,7 +415,7 @@ CTS = (None, "", _XOR_CT, "QQ", "!!", "AAAAAAAAAAAAAAAAAAAAAAAAAAAAAAAAAAAAAAAAA
                  "None, str, or a well-formed pair; raises otherwise; never another outcome")
 def secure_to_python_shapes(kind: int, mi: int, ci: int, has_m: bool, has_c: bool, s: str) -> bool:
     """
-    pre: 0 <= kind <= 4 and 0 <= mi < 9 and 0 <= ci < 9 and len(s) <= 3
+    pre: 0 <= kind <= 4 and 0 <= mi < 9 and 0 <= ci < 10 and len(s) <= 3
     post: _
     """
     fs = FakeFS(files={KEYPATH: KEY}, dirs=["/k"])
@@ -456,7 +456,14 @@ def secure_to_python_shapes(kind: int, mi: int, ci: int, has_m: bool, has_c: boo
         except Exception as exc:  # noqa: BLE001
             return hold("reject", False, "malformed stored secret raised %r instead of ValueError" % (exc,))
         hold("value", isinstance(out, str), "non-string value returned")
-        hold("value", has_m and has_c and m in ("xor", "aes", "best") and isinstance(c, str),
+        strict_b64 = False
+        if isinstance(c, str):
+            try:
+                base64.b64decode(c, validate=False)   # the standard library's own verdict on the stored text
+                strict_b64 = len(c) % 4 == 0
+            except Exception:  # noqa: BLE001
+                strict_b64 = False
+        hold("value", has_m and has_c and m in ("xor", "aes", "best") and strict_b64,
              "malformed stored secret returned a value: %r" % (value,))
         if m == "xor" and c == _XOR_CT:
             hold("value", out == "pw", "wrong plaintext")
